@@ -14,6 +14,7 @@ import (
 	"reflect"
 	"regexp"
 	"sort"
+	"strconv"
 	"strings"
 	"sync"
 	"testing"
@@ -111,6 +112,13 @@ func TestVerifC15HTTP(t *testing.T) {
 	rep := verifrep.Open()
 	defer rep.Close()
 	rng := rand.New(rand.NewSource(verifrep.Seed()))
+	// every other child runs the node with -pre1.0_protobuf=false: log entries are written and
+	// read in the legacy JSON encoding, which has a decoder of its own
+	if ch, err := strconv.Atoi(os.Getenv("VERIF_CHILD")); err == nil && ch%2 == 1 {
+		verifStoreProto = false
+		defer func() { verifStoreProto = true }()
+		rep.Obs("http.nodes-in-json-store-mode", 1)
+	}
 	n, c := mustNode(rep, "c15node")
 	if n == nil {
 		return
@@ -868,6 +876,16 @@ func TestVerifC11(t *testing.T) {
 						}
 						if strings.Contains(body, "SECRET-PAYLOAD") || strings.Contains(body, "PRIVMSG") {
 							viol("messages-revealed:"+key, fmt.Sprintf("response body reveals message data: %.120q", body))
+						}
+						// the refusal must not hand out what it asked for: no session's secret (nor a
+						// recognisable part of one) in the body
+						for _, holder := range targets {
+							if a := holder.s.Auth; len(a) >= 32 && present && hv == a {
+								continue // the client sent this one itself
+							} else if len(a) >= 32 && (strings.Contains(body, a[:32]) || strings.Contains(body, a[len(a)-32:])) {
+								viol("secret-revealed:"+key, fmt.Sprintf("the response (HTTP %d) to a request without the right secret contains the secret of session %s (%s): %.160q", code, holder.s.Id, holder.name, body))
+								break
+							}
 						}
 						if after := digest(n); after != before {
 							viol("refused-request-changed-state:"+key, "state digest, log index or output position changed")
